@@ -12,6 +12,15 @@ CHECKS = {
  "C02": dict(tech="TLC trace validation of close/reopen histories against AbsTxn.tla (Close/Open actions) + TLC model of recovery",
     text="Seeded histories with Close/Open cycles at arbitrary positions (non-empty flush queue, right after a rotation, empty memtable, Config re-drawn) are executed on the real engine; TLC judges each recorded history against the contract, in which Open must expose exactly the committed state and later commits must supersede it.",
     note="sampling of histories and configurations; L0TargetNum/LevelRatio fixed per directory as the property says"),
+ "C03": dict(tech="TLC model checking of Crash.tla (crash at every file-system step, recovery as steps) + crash-image enumeration on the real code judged by TLC trace validation against AbsTxn.tla (Crash/Open actions)",
+    text="Crash.tla makes every file-system operation of committer, flusher, compaction, Close and recovery its own action with Crash enabled in every state; TLC checks Durable/OpenOk/Fresh. On the real code every file-system failpoint hit by steered workloads yields a crash image (directory copied while the engine is held before the operation); each distinct image is recovered in a fresh child process and the stitched history (workload prefix, Crash, Open, reads, commit, close, reopen, reads) is judged by TLC against the contract.",
+    note="process-crash model of the property; workloads/schedules are seeded samples, failpoints within a run are enumerated completely; second-level (crash during recovery) images in the thorough tier"),
+ "C04": dict(tech="TLC trace validation of crash-image histories against AbsTxn.tla with AtomicInflight=TRUE vs FALSE + TLC invariant Atomic on Crash.tla",
+    text="The same image enumeration on multi-key transactions; a recovered history is a C04 violation when the whole-or-nothing contract rejects it while the per-key contract accepts it, i.e. exactly when a transaction is visible partially.",
+    note="quantifier is crash points (not lost unsynced tails), as in the property"),
+ "C14": dict(tech="TLC model checking of Crash.tla with TornTails + torn-tail variants of every crash image judged by TLC trace validation",
+    text="Per file the harness tracks written vs synced length from the fs hooks; every crash image is additionally recovered with each unsynced tail cut back (synced, synced+1, middle, written-1; thorough: every byte of short tails). Open must succeed and every acknowledged commit must be visible (contract with per-key in-flight semantics).",
+    note="directory operations assumed ordered and durable (as the property says); truncation is the only in-file fault"),
  "C05": dict(tech="TLC model checking of Txn.tla (refinement of AbsTxn) + hint-free TLC trace validation of concurrent and steered long-reader executions",
     text="Txn.tla (oracle, watermarks, commit pipeline, one action per critical section) is model-checked to refine the contract (SnapshotReads, GcSafe, CommitMarkSound in every state), with deviation switches as self-test. Real executions: concurrent goroutines with seeded delays at hook points, and steered scripts holding up to three long-lived readers open across every flusher stage and compaction; TLC searches all placements of the unobservable linearization points; only rejections at a Get/Begin are attributed to C05.",
     note="bounded model (<=3 clients, 2 keys); schedules of the real code are sampled (seeded), not enumerated"),
